@@ -219,7 +219,7 @@ def run_shard(ctx):
         ctx.stats.case(key=(txt, pos, [r[:2] for r in rules]), nontrivial=nt, classes=cl,
                        sample={'text': txt, 'pos': pos, 'lines': [mkline(r) for r in rules]})
 
-    hyp_run(ctx, direct_case(), direct, ctx.n(60000, 1000000))
+    hyp_run(ctx, direct_case(), direct, ctx.n(60000, 500000))
 
     def integ(args):
         d, rules, ml = args
@@ -232,4 +232,4 @@ def run_shard(ctx):
                        sample={'src': src, 'lines': [mkline(r) for r in rules], 'ml': ml}, n=2)
 
     hyp_run(ctx, st.tuples(doc_s, st.lists(rule_doc, min_size=1, max_size=3), st.booleans()), integ,
-            ctx.n(6000, 100000), seed=ctx.shard_seed + 500)
+            ctx.n(6000, 50000), seed=ctx.shard_seed + 500)
